@@ -11,18 +11,22 @@ func init() {
 
 func runC12(opt *Options) int {
 	stub := []string{"github.com/jmattheis/goverter/method.Parse"}
+	ints := map[string]int{"VerifC12StepMax": 5, "VerifC12ChainMax": 3}
+	if opt.Thorough() {
+		ints = map[string]int{"VerifC12StepMax": 6, "VerifC12ChainMax": 4}
+	}
 	lr := &laRun{
 		Opt:  opt,
 		Pkgs: []string{"config"},
 		Kernels: []layera.Kernel{
-			{Name: "K6.step", Pkg: "config", Harness: "VerifHarness_C12_Step", Unwind: 64, Stub: stub},
+			{Name: "K6.step", Pkg: "config", Harness: "VerifHarness_C12_Step", Unwind: 64, Stub: stub, SetInts: ints},
 			{Name: "K6.unknown", Pkg: "config", Harness: "VerifHarness_C12_Unknown", Unwind: 64, Stub: stub},
-			{Name: "K6.strings", Pkg: "config", Harness: "VerifHarness_C12_Strings", Unwind: 64, Stub: stub},
-			{Name: "K6.chain", Pkg: "config", Harness: "VerifHarness_C12_Chain", Unwind: 64, Stub: stub},
+			{Name: "K6.strings", Pkg: "config", Harness: "VerifHarness_C12_Strings", Unwind: 64, Stub: stub, SetInts: ints},
+			{Name: "K6.chain", Pkg: "config", Harness: "VerifHarness_C12_Chain", Unwind: 64, Stub: stub, SetInts: ints},
 			{Name: "K6.wronglevel", Pkg: "config", Harness: "VerifHarness_C12_WrongLevel", Unwind: 64, Stub: stub},
 		},
 		Funcs:  []string{"config.parseCommon", "config.parseConverterLines", "config.parseConverterLine", "config.parseMethod", "config.parseMethodLine", "config.formatLineError", "config.validateEnumAction", "config.IsEnumAction", "parse.Command", "parse.Bool", "parse.Enum", "parse.String", "parse.Regex", "config.init (DefaultCommon, DefaultConfigInterface)"},
-		Bounds: "one line per level (CLI, converter, method) + sibling method + second converter; value strings: any ASCII bytes, length <= 5 (step) / <= 3 (chain); arbitrary pre-state Common (all booleans symbolic); unwind 64 asserted",
+		Bounds: "one line per level (CLI, converter, method) + sibling method + second converter; value strings: any ASCII bytes, length <= 5 (step) / <= 3 (chain), thorough <= 6 / <= 4; arbitrary pre-state Common (all booleans symbolic); unwind 64 asserted",
 		Assume: []string{
 			"method.Parse (signature parsing, C14's subject) is stubbed to return (nil, nil)",
 			"the harness replays parseConverter's sequence (global lines, converter lines, parseMethod) without pkgload",
